@@ -28,9 +28,10 @@ def shapes(family, quick):
             for seq in itertools.product(KW if n <= (4 if quick else 5) else KW[:4] + KW[5:], repeat=n):
                 for i in range(0, n):          # feature background takes seq[:i]
                     for j in range(i, n):      # rule background takes seq[i:j], own steps seq[j:] (at least one)
-                        for outline in (False, True):
+                        for outline in (None, 'two-rows', 'two-tables') if n <= 3 else (None, 'two-rows'):
                             own = [S('o%d' % k, kw=kw) for k, kw in enumerate(seq[j:])]
-                            sc = M.scenario('s', own, [A.ex('one-row')] if outline else [], outline=outline)
+                            exs = [] if outline is None else [A.ex('two-rows')] if outline == 'two-rows' else [A.ex('one-row'), A.ex('two-rows', True)]
+                            sc = M.scenario('s', own, exs, outline=outline is not None)
                             fb = [M.background('', [S('f%d' % k, kw=kw) for k, kw in enumerate(seq[:i])])] if i else []
                             if j > i:
                                 yield M.feature('f', fb + [M.rule('r', [M.background('', [S('r%d' % k, kw=kw) for k, kw in enumerate(seq[i:j])]), sc])])
@@ -86,9 +87,7 @@ def check_ast(ast, acc, case):
     if got[0] != 'ok':
         acc.violation('compile-exception', case, 'Compiler.compile raised ' + got[1])
         return
-    pk = got[1]
     want = expected_types(ast)
-    types = P.p_c10(pk)
     if any(want):
         acc.nontrivial += 1
     for w in want:
@@ -98,14 +97,20 @@ def check_ast(ast, acc, case):
             acc.states.add(t)
             acc.trans.add((prev, t))
             prev = t
-    for p in types:
-        for t in p:
-            if t not in TYPES:
-                acc.violation('type-vocabulary', case, 'pickle step type %r is not one of Unknown, Context, Action, Outcome' % (t,), observed=types)
-                return
-    if types != want:
-        i = next((i for i, (x, y) in enumerate(zip(types, want)) if x != y), min(len(types), len(want)))
-        acc.violation('step-types', case, 'pickle %d: step types are not the fold of the keyword types' % i, observed=types[i:i + 1], expected=want[i:i + 1])
+    for route, res in (('fresh compiler', got), ('compiler that compiled other documents before', P.compile_reused(ast))):
+        if res[0] != 'ok':
+            acc.violation('compile-exception', case, 'Compiler.compile (%s) raised %s' % (route, res[1]))
+            return
+        types = P.p_c10(res[1])
+        for p in types:
+            for t in p:
+                if t not in TYPES:
+                    acc.violation('type-vocabulary', case, '%s: pickle step type %r is not one of Unknown, Context, Action, Outcome' % (route, t), observed=types)
+                    return
+        if types != want:
+            i = next((i for i, (x, y) in enumerate(zip(types, want)) if x != y), min(len(types), len(want)))
+            acc.violation('step-types', case, '%s: pickle %d: step types are not the fold of the keyword types' % (route, i), observed=types[i:i + 1], expected=want[i:i + 1])
+            return
 
 
 @worker
@@ -149,6 +154,56 @@ def job_dialect(names):
     return acc
 
 
+def shared_spellings():
+    """[(keyword, dialect1, dialect2)] where the same spelling belongs to different step categories in the two dialects."""
+    cat = {}
+    for d, spec in M.DIALECTS.items():
+        for role in ('given', 'when', 'then', 'and', 'but'):
+            for k in spec[role]:
+                cat.setdefault(k, {}).setdefault(d, set()).add(M.STEP_TYPE[role])
+    out = []
+    for k, per in cat.items():
+        ds = sorted(per)
+        for a in ds:
+            for b in ds:
+                if a != b and per[a] != per[b]:
+                    out.append((k, a, b))
+    return out
+
+
+@worker
+def job_shared(pairs):
+    """Two documents in different dialects, one after the other in the same process, that use a keyword spelled the same in both."""
+    acc = Acc()
+    text = None
+    for (k, d1, d2) in pairs:
+        for d in (d1, d2):
+            given = next(x for x in M.DIALECTS[d]['given'] if x != '* ')
+            steps = [S('p', kw=given), S('x', kw=k)]
+            model = M.feature('f', [M.scenario('s', steps), M.scenario('o', steps, [A.ex('two-rows')], outline=True)], language=d, header=[('language', '#language: ' + d)])
+            text, exp, r = M.render(model)
+            a = I.parse(text)
+            if a[0] != 'ok':
+                acc.violation('dialect-document-rejected', {'kind': 'text', 'text': text}, 'document rejected: %s' % (a[1][:2],))
+                continue
+            lx = R.RefLexer(d)
+            want = []
+            for st in steps:
+                t = R.Tok(1, st['kw'] + st['text'] + '\n')
+                lx.match('StepLine', t)
+                want.append(t.ktype)
+            got = [s['keywordType'] for s in a[1]['feature']['children'][0]['scenario']['steps']]
+            acc.n += 1
+            acc.validated += 1
+            acc.nontrivial += 1
+            if got != want:
+                acc.violation('keyword-type', {'kind': 'text', 'text': text, 'after_dialect': d1 if d == d2 else None},
+                              'keyword %r in dialect %s (parsed after a document in %s): keyword types %s, language table says %s' % (k, d, d1, got, want))
+            check_ast(a[1], acc, {'kind': 'ast', 'ast': a[1], 'dialect': d})
+    acc.sample({'family': 'shared spelling', 'text': text})
+    return acc
+
+
 def run(ctx):
     ctx.rule = ('keyword-type sequences of total length <= n split in every way across feature background / rule background / scenario, plain and outline, AST and parser route; '
                 'all 80 dialects x every distinct step keyword x 5 predecessors through the parser; non-trivial = pickles with at least one step')
@@ -156,6 +211,9 @@ def run(ctx):
     A.run_shapes(ctx, __name__, ['sequences'], (6, 7))
     names = sorted(M.DIALECTS)
     ctx.level('dialects x keywords x predecessors', [job_dialect.job(names[i:i + 5]) for i in range(0, len(names), 5)])
+    sp = shared_spellings()
+    ctx.notes['shared_spellings'] = len(sp)
+    ctx.level('dialect pairs sharing a keyword spelling', [job_shared.job(sp[i:i + 40]) for i in range(0, len(sp), 40)])
 
 
 def replay(case):
